@@ -266,7 +266,7 @@ def gen(rng, tier):
     ciphers = [c.decode() for c in transport.SSHTransportBase.supportedCiphers] + ["none"]
     macs = [m.decode() for m in transport.SSHTransportBase.supportedMACs] + ["none"]
     cases = []
-    reps = 3 if quick else 40
+    reps = 5 if quick else 40
     for cip in ciphers:
         for mac in macs:
             for comp in (False, True):
@@ -371,7 +371,7 @@ SPEC = Spec(
     to_coq=to_coq,
     nontrivial=lambda c, o: " P" in " " + o or "X" in o,
     histogram=lambda c, o: f"{c['cip']}/{c['mac']}/{'zlib' if c['comp'] else 'none'}" + ("/tampered" if c.get("corrupt") else ""),
-    rule="every cipher the transport offers (+none) x every MAC it offers (+none) x {none, zlib}, 3 (thorough 40) cases "
+    rule="every cipher the transport offers (+none) x every MAC it offers (+none) x {none, zlib}, 5 (thorough 40) cases "
          "each: 0-3 banner lines (incl. lines with 'SSH-' inside, lines of exactly one cipher block, empty lines), 14 "
          "version-line shapes (LF only, CR CR LF, 1.99, unsupported, no software part), 1-5 random payloads of 1-40 "
          "(thorough 1000) bytes (some containing LF SSH-2.0-...), deliveries whole / byte-by-byte / random cuts / cut "
